@@ -4,8 +4,8 @@
 From Coq Require Import ZArith NArith List Bool String Ascii Lia PrimFloat FloatOps SpecFloat.
 From Verif Require Import Base.Result Base.Str Base.Sexp Base.Float Model.NumExpr Spec.Arith.
 Import ListNotations.
-Open Scope string_scope.
 Open Scope list_scope.
+Open Scope string_scope.
 Open Scope Z_scope.
 
 (* ------------------------------------------------------------------ digits *)
@@ -18,9 +18,7 @@ Qed.
 
 Lemma is_digit_not_special c : is_digit c = true -> Ascii.eqb c "." = false /\ Ascii.eqb c "-" = false.
 Proof.
-  revert c. apply (forall_ascii (fun c => implb (is_digit c) (negb (Ascii.eqb c ".") && negb (Ascii.eqb c "-")))
-                     eq_refl) || idtac.
-  intros c H.
+  intros H.
   pose proof (forall_ascii (fun c => implb (is_digit c) (negb (Ascii.eqb c ".") && negb (Ascii.eqb c "-")))) as F.
   specialize (F eq_refl c). cbv beta in F. rewrite H in F. cbn [implb] in F.
   apply andb_true_iff in F as [F1 F2]. apply negb_true_iff in F1, F2. split; assumption.
@@ -145,18 +143,13 @@ Proof.
     destruct (digits_of m) as [|c r]; [discriminate|]. cbn [all_digits] in Ha.
     apply andb_true_iff in Ha as [Hc _]. exists c, (r ++ rest). split; [reflexivity | exact Hc]. }
   destruct digits as [|k].
-  - destruct (G n EmptyString Hn) as (c & r & E & Hc).
-    assert (E' : digits_of n = String c r).
-    { revert E. generalize (digits_of n). intros s. clear. revert c r. induction s as [|a s IH]; intros c r; cbn.
-      - discriminate.
-      - intros H. injection H as -> H. f_equal.
-        clear IH. revert r H. induction s as [|b s IH2]; intros r H; cbn in *; [congruence|].
-        destruct r as [|b' r']; [discriminate|]. injection H as -> H. f_equal. apply IH2. exact H. }
-    exists c, r. split; assumption.
+  - destruct (digits_of_facts n Hn) as (Ha & Hne & _).
+    destruct (digits_of n) as [|c r]; [discriminate|]. cbn [all_digits] in Ha.
+    apply andb_true_iff in Ha as [Hc _]. exists c, r. split; [reflexivity | exact Hc].
   - apply G. apply Z.div_pos; [lia | apply pow10_pos].
 Qed.
 
-Lemma dec_parse_signed neg digits n : 0 <= n ->
+Lemma dec_parse_signed (neg : bool) digits n : 0 <= n ->
   dec_parse (let t := fixed_text digits n in if neg then String "-" t else t) = Some (neg, n, digits).
 Proof.
   intros Hn. cbv zeta. destruct neg.
@@ -250,43 +243,34 @@ Proof.
 Qed.
 
 (* ------------------------------------------------------------------ C12_print, value part *)
-Lemma print_ok_finite digits v f d :
-  Prim2SF v = f -> sf_exact f = Some d ->
-  (match f with S754_nan | S754_infinity _ => False | _ => True end) ->
-  print_ok digits v (num_text digits v) = true.
+Lemma print_core digits d :
+  0 <= dy_m d ->
+  match dec_parse (if dy_is_integer d then py_int_text (dy_trunc d)
+                   else (let t := fixed_text digits (scaled_rne digits d) in if dy_neg d then String "-" t else t)) with
+  | Some (neg, n, k) =>
+      if dy_is_integer d then text_exact d neg n k else Nat.eqb k digits && text_close d neg n k digits
+  | None => false
+  end = true.
 Proof.
-  intros Hf Hd Hfin. unfold print_ok, num_text, exact. rewrite Hf.
-  pose proof (sf_exact_facts _ _ Hd) as Hm.
-  assert (G : match sf_exact f, dec_parse (match sf_exact f with
-                                           | Some d0 => if dy_is_integer d0 then py_int_text (dy_trunc d0) else format_fixed digits v
-                                           | None => format_fixed digits v end) with
-              | Some d0, Some (neg, n, k) =>
-                  if dy_is_integer d0 then text_exact d0 neg n k else Nat.eqb k digits && text_close d0 neg n k digits
-              | _, _ => false
-              end = true).
-  { rewrite Hd. destruct (dy_is_integer d) eqn:Hint.
-    - rewrite dec_parse_int. apply text_exact_trunc; assumption.
-    - unfold format_fixed. rewrite Hf.
-      assert (Hff : (match f with
-                     | S754_nan => "nan" | S754_infinity false => "inf" | S754_infinity true => "-inf"
-                     | _ => match sf_exact f with
-                            | Some d0 => let t := fixed_text digits (scaled_rne digits d0) in if dy_neg d0 then String "-" t else t
-                            | None => "" end
-                     end) = (let t := fixed_text digits (scaled_rne digits d) in if dy_neg d then String "-" t else t)).
-      { destruct f; try contradiction; rewrite Hd; reflexivity. }
-      rewrite Hff, (dec_parse_signed (dy_neg d) digits _ (scaled_rne_nonneg digits d Hm)).
-      rewrite Nat.eqb_refl. cbn [andb]. apply text_close_scaled; [exact Hm|].
-      unfold dy_is_integer in Hint. apply orb_false_iff in Hint as [Hint _]. apply Z.leb_gt in Hint. exact Hint. }
-  destruct f; try contradiction; exact G.
+  intros Hm. destruct (dy_is_integer d) eqn:Hint.
+  - rewrite dec_parse_int. apply text_exact_trunc; assumption.
+  - rewrite (dec_parse_signed (dy_neg d) digits _ (scaled_rne_nonneg digits d Hm)).
+    rewrite Nat.eqb_refl. cbn [andb]. apply text_close_scaled; [exact Hm|].
+    unfold dy_is_integer in Hint. apply orb_false_iff in Hint as [Hint _]. apply Z.leb_gt in Hint. exact Hint.
 Qed.
 
 Theorem C12_print_value_lemma digits v : print_ok digits v (num_text digits v) = true.
 Proof.
-  destruct (Prim2SF v) as [s|s| |s m e] eqn:Hf.
-  - eapply print_ok_finite; [exact Hf | reflexivity | exact I].
-  - unfold print_ok, num_text, exact, format_fixed. rewrite Hf. cbn [sf_exact]. destruct s; reflexivity.
-  - unfold print_ok, num_text, exact, format_fixed. rewrite Hf. reflexivity.
-  - eapply print_ok_finite; [exact Hf | reflexivity | exact I].
+  unfold print_ok, num_text, exact, format_fixed.
+  destruct (Prim2SF v) as [s|s| |s m e] eqn:Hf; cbn [sf_exact].
+  - set (d := {| dy_neg := s; dy_m := 0; dy_e := 0 |}).
+    pose proof (print_core digits d ltac:(cbn; lia)) as H.
+    destruct (dy_is_integer d); exact H.
+  - destruct s; reflexivity.
+  - reflexivity.
+  - set (d := {| dy_neg := s; dy_m := Z.pos m; dy_e := e |}).
+    pose proof (print_core digits d ltac:(cbn; lia)) as H.
+    destruct (dy_is_integer d); exact H.
 Qed.
 
 (* ------------------------------------------------------------------ C12_print, structure part *)
@@ -385,9 +369,3 @@ Section Structure.
   Qed.
 End Structure.
 
-(* to_pddl's text is the token tree written with single blanks (fluents as untyped_representation writes them) *)
-Fixpoint sexp_text (e : sexp) : string :=
-  match e with
-  | Atom s => s
-  | SList l => "(" ++ join " " (map sexp_text l) ++ ")"
-  end.
